@@ -95,6 +95,10 @@ def judge(c, r, tc, root):
                                          r["rc"], c["call"], out.strip().splitlines()[-1][:300])))
         return problems, notes
     # exit 0
+    if c.get("mustfail") and c.get("tag"):
+        problems.append(("C09/unsupported-accepted-silently:" + c["tag"], "exit 0%s although the call cannot be generated for and the tool refuses this type in every other position (%s)" % (
+            "" if out.strip() else " without any message", c["what"])))
+        return problems, notes
     if c.get("mustfail"):
         problems.append(("C09/unresolvable-call-ignored", "exit 0%s although a derive call of the package can never be generated for (%s)" % (
             "" if out.strip() else " without any message", c["what"])))
@@ -145,6 +149,12 @@ def judge(c, r, tc, root):
             problems.append(("other-property/exit0-ill-typed:%s:%s" % (pl, kind), "exit 0 and the package does not type-check (%s): %s" % (c["what"], errs[0][:250])))
     elif c["unsupp"]:
         notes.append("accepted-and-well-typed")
+    if not problems and c.get("wants"):
+        missing = [w for w in c["wants"] if w not in text]
+        if missing:
+            problems.append(("C09/exit0-file-lacks-what-the-case-needs:" + (c.get("tag") or pl),
+                             "exit 0 and a file that type-checks, but derived.gen.go does not hold %r (%s): the generated function does not do what the tool does for this type elsewhere" % (
+                                 missing[0], c["what"])))
     return problems, notes
 
 
@@ -159,7 +169,8 @@ def run(rep):
                        "reject something or emit code (not the controls); family unresolved: an undeclared type in every position of the argument type "
                        "(bare, pointer/slice/array/chan element, map key, map value, func parameter/result, struct fields, nested two deep) for every "
                        "type-directed plugin: non-zero exit naming the call, or a file that parses; family nonascii (type names of 1-3 non-ASCII letters, same name in 2-3 packages, "
-                       "every letter prefix already taken) must end with exit 0 and a file that parses and type-checks")
+                       "every letter prefix already taken) must end with exit 0 and a file that parses and type-checks; family mapkeys: deepcopy / clone of a map (top, field, element, map value, "
+                       "behind a pointer) whose key is or holds an interface / channel is refused with a message, a key holding pointers is copied into a key of its own")
     rep.assumptions += ["panics inside go/types, x/tools loader and go/format are outside the model; the broken-file stream exercises them",
                         "the type-check oracle is go/types with the source importer (trusted)",
                         "a diagnostic that prints the type only as a %#v dump of go/types internals is counted as naming it (reported as weak)"]
